@@ -1,4 +1,5 @@
 """Runner behind ./check (python3, stdlib only)."""
+import glob
 import fcntl, json, os, re, shutil, subprocess, sys, time, hashlib
 from concurrent.futures import ThreadPoolExecutor
 
@@ -90,23 +91,28 @@ def lean_phase(pid, tier):
             res["problems"].append("lake build failed: " + " | ".join(errs))
             res["build_log"] = out[-6000:]
         audit = os.path.join(LEAN, "Audit", pid + ".lean")
+        # further audit files of the property (theorems living in a module that cannot be imported together
+        # with Props.<pid>): Audit/<pid>_*.lean
+        audits = [audit] + sorted(glob.glob(os.path.join(LEAN, "Audit", pid + "_*.lean")))
         if rc == 0 and os.path.exists(audit):
-            rc2, out2 = sh(["lake", "env", "lean", audit], cwd=LEAN, timeout=1200)
-            names = re.findall(r"^#print axioms\s+(\S+)", open(audit).read(), flags=re.M)
-            res["obligations"] = len(names)
-            for m in re.finditer(r"'([^']+)' depends on axioms: \[([^\]]*)\]", out2.replace("\n ", " ")):
-                ax = {a.strip() for a in m.group(2).split(",") if a.strip()}
-                res["axioms"][m.group(1)] = sorted(ax)
-                if ax <= ALLOWED_AXIOMS:
+            for au in audits:
+                rc2, out2 = sh(["lake", "env", "lean", au], cwd=LEAN, timeout=1200)
+                names = re.findall(r"^#print axioms\s+(\S+)", open(au).read(), flags=re.M)
+                res["obligations"] += len(names)
+                before = res["discharged"]
+                for m in re.finditer(r"'([^']+)' depends on axioms: \[([^\]]*)\]", out2.replace("\n ", " ")):
+                    ax = {a.strip() for a in m.group(2).split(",") if a.strip()}
+                    res["axioms"][m.group(1)] = sorted(ax)
+                    if ax <= ALLOWED_AXIOMS:
+                        res["discharged"] += 1
+                    else:
+                        res["problems"].append(f"theorem {m.group(1)} depends on axioms {sorted(ax - ALLOWED_AXIOMS)}")
+                for m in re.finditer(r"'([^']+)' does not depend on any axioms", out2):
+                    res["axioms"][m.group(1)] = []
                     res["discharged"] += 1
-                else:
-                    res["problems"].append(f"theorem {m.group(1)} depends on axioms {sorted(ax - ALLOWED_AXIOMS)}")
-            for m in re.finditer(r"'([^']+)' does not depend on any axioms", out2):
-                res["axioms"][m.group(1)] = []
-                res["discharged"] += 1
-            res["theorems"] = names
-            if rc2 != 0 or res["discharged"] != res["obligations"]:
-                res["problems"].append("audit incomplete: " + out2[-1500:])
+                res["theorems"] += names
+                if rc2 != 0 or res["discharged"] - before != len(names):
+                    res["problems"].append("audit incomplete (" + os.path.basename(au) + "): " + out2[-1500:])
         elif rc == 0:
             res["problems"].append("no Audit file for " + pid)
         hits = forbidden_hits()
